@@ -75,7 +75,7 @@ theorem replay_sound (i : Inst) (hlim : cmpInf .le 0 i.limit = true) :
   | cons a as ih =>
     intro cur t len hlen hchk hP r rs hr
     obtain ⟨r1, rs1, h1⟩ := routes_cons_exists as
-    simp only [checkReplay, Params.mtvrpCheckLimitCmp, Params.mtvrpCheckTwCmp, Bool.and_eq_true] at hchk
+    simp only [checkReplay_cons, Params.mtvrpCheckLimitCmp, Params.mtvrpCheckTwCmp, Bool.and_eq_true] at hchk
     obtain ⟨⟨okL, okT⟩, hrec⟩ := hchk
     rw [cmpInf_le_max] at okT
     by_cases h0 : a = 0
@@ -134,7 +134,7 @@ theorem c1_sound (cap : Int) (dem : Nat → Int) (hd0 : dem 0 = 0) : ∀ (as : L
   | cons a as ih =>
     intro used hchk r rs hr
     obtain ⟨r1, rs1, h1⟩ := routes_cons_exists as
-    simp only [checkC1, Params.mtvrpCheckCapCmp, Cmp.eval, Bool.and_eq_true, decide_eq_true_eq] at hchk
+    simp only [checkC1_cons, Params.mtvrpCheckCapCmp, Cmp.eval, Bool.and_eq_true, decide_eq_true_eq] at hchk
     obtain ⟨hle, hrec⟩ := hchk
     by_cases h0 : a = 0
     · subst h0
@@ -213,7 +213,7 @@ theorem replay_complete (i : Inst) (hstat : checkStatic i = true)
     intro cur t len hrange hcur hz hsl hroutes
     obtain ⟨r1, rs1, h1⟩ := routes_cons_exists as
     have hrange' : ∀ b ∈ as, b ≤ i.n := fun b hb => hrange b (List.mem_cons_of_mem _ hb)
-    simp only [checkReplay, Params.mtvrpCheckLimitCmp, Params.mtvrpCheckTwCmp, Bool.and_eq_true]
+    simp only [checkReplay_cons, Params.mtvrpCheckLimitCmp, Params.mtvrpCheckTwCmp, Bool.and_eq_true]
     by_cases h0 : a = 0
     · subst h0
       have hr := hroutes [] (r1 :: rs1) (by simp [routes, h1])
@@ -293,7 +293,7 @@ theorem c1_complete (n : Nat) (cap : Int) (dem : Nat → Int) (hcap : 0 ≤ cap)
     intro used hrange hroutes
     obtain ⟨r1, rs1, h1⟩ := routes_cons_exists as
     have hrange' : ∀ b ∈ as, b ≤ n := fun b hb => hrange b (List.mem_cons_of_mem _ hb)
-    simp only [checkC1, Params.mtvrpCheckCapCmp, Cmp.eval, Bool.and_eq_true, decide_eq_true_eq]
+    simp only [checkC1_cons, Params.mtvrpCheckCapCmp, Cmp.eval, Bool.and_eq_true, decide_eq_true_eq]
     by_cases h0 : a = 0
     · subst h0
       have hr := hroutes [] (r1 :: rs1) (by simp [routes, h1])
